@@ -912,6 +912,13 @@ def handle (prop : String) (line : String) : Json :=
       let soloBad := match (j.getObjVal? "impl").toOption.bind (fun i => (i.getObjVal? "solo_same").toOption) with
         | some (.bool false) => true
         | _ => false
+      -- the same texts read from disk with `add_file` gave other results than `add_content` of the same texts
+      let fileBad := match (j.getObjVal? "impl").toOption.bind (fun i => (i.getObjVal? "file_same").toOption) with
+        | some (.bool false) => true
+        | _ => false
+      let v := if fileBad && prop != "all" then
+          (v.addSpec prop false).addDetail "file" (Json.str "add_file of the same texts gives other results than add_content")
+        else v
       let v := if soloBad && prop != "all" then
           (v.addSpec prop false).addDetail "solo" (Json.str "the syntax-stage result of a file inside the project differs from that of the file alone")
         else v
